@@ -484,12 +484,17 @@ func rangeScan[K nodeKey, V any, L nodeLeaf[V]](
 	}
 
 	return func(yield func(K, V) bool) {
-		var q []nodeRef
+		// the depth belongs to the path that leads to a node, so it travels
+		// on the stack with the node
+		type item struct {
+			ref   nodeRef
+			depth int
+		}
+		var q []item
 
-		depth := 0
-		q = append(q, root)
+		q = append(q, item{root, 0})
 		for len(q) != 0 {
-			n := q[len(q)-1]
+			n, depth := q[len(q)-1].ref, q[len(q)-1].depth
 			q = q[:len(q)-1]
 
 			if n.tag == nodeKindLeaf {
@@ -511,6 +516,7 @@ func rangeScan[K nodeKey, V any, L nodeLeaf[V]](
 			}
 
 			node := n.node()
+			childDepth := depth + int(node.prefixLen) + 1
 
 			if node.prefixLen > 0 && depth < len(search) {
 				nodeKey := unsafe.Slice(&node.prefix[0], min(maxPrefixLen, node.prefixLen))
@@ -525,14 +531,14 @@ func rangeScan[K nodeKey, V any, L nodeLeaf[V]](
 				n4 := (*node4)(n.pointer)
 
 				for i := int(n4.childrenLen) - 1; i >= 0; i-- {
-					q = append(q, n4.children[i])
+					q = append(q, item{n4.children[i], childDepth})
 				}
 
 			case nodeKind16:
 				n16 := (*node16)(n.pointer)
 
 				for i := int(n16.childrenLen) - 1; i >= 0; i-- {
-					q = append(q, n16.children[i])
+					q = append(q, item{n16.children[i], childDepth})
 				}
 
 			case nodeKind48:
@@ -543,7 +549,7 @@ func rangeScan[K nodeKey, V any, L nodeLeaf[V]](
 					if idx == 0 {
 						continue
 					}
-					q = append(q, n48.children[idx-1])
+					q = append(q, item{n48.children[idx-1], childDepth})
 				}
 
 			case nodeKind256:
@@ -553,14 +559,12 @@ func rangeScan[K nodeKey, V any, L nodeLeaf[V]](
 					if n256.children[i].pointer == nil {
 						continue
 					}
-					q = append(q, n256.children[i])
+					q = append(q, item{n256.children[i], childDepth})
 				}
 
 			default:
 				panic("shouldn't be possible!")
 			}
-
-			depth += int(node.prefixLen) + 1
 		}
 	}
 }
